@@ -291,6 +291,9 @@ def parse_rvalue(s):
         return Rvalue("struct", [v for _, v in fields], (head, [k for k, _ in fields]))
     if re.fullmatch(r"[\w:<>'_, &\[\]]+", s):
         return Rvalue("aggregate", [], s)
+    # unit variant / unit struct with elaborate generic arguments: `Option::<Box<dyn for<'a> FnMut(..) -> ..>>::None`
+    if re.match(r"^[\w:]+::<", s) and re.search(r">::\w+$", s):
+        return Rvalue("aggregate", [], s)
     raise MirError("unparsable rvalue: " + s)
 
 
